@@ -58,6 +58,32 @@ def run(repo, rep, tier):
     }
     if chgset_txt:
         table[chgset_txt] = 'chgset'
+    # the "advertised" test: `n [not] in X` where X is the current category's advertised list -- the loop variable of
+    # `for alg_type, alg_list in alg_pair.items()` or a local (re)defined from it inside that loop on every iteration
+    cat_loops = [n for n in walk_no_nested(gr) if isinstance(n, ast.For) and unparse(n.iter) == 'alg_pair.items()' and isinstance(n.target, ast.Tuple) and len(n.target.elts) == 2]
+    if len(cat_loops) != 1:
+        raise AnalysisError('category loop `for alg_type, alg_list in alg_pair.items()` not found')
+    cat_loop = cat_loops[0]
+    cat_list = unparse(cat_loop.target.elts[1])
+    for n in walk_no_nested(gr):
+        if isinstance(n, ast.Compare) and len(n.ops) == 1 and isinstance(n.ops[0], (ast.In, ast.NotIn)) and unparse(n.left) == 'n' and isinstance(n.comparators[0], ast.Name):
+            X = n.comparators[0].id
+            ok = X == cat_list
+            why = ''
+            if not ok:
+                defs = [d for d in walk_no_nested(gr) if isinstance(d, (ast.Assign, ast.AnnAssign)) and unparse(d.targets[0] if isinstance(d, ast.Assign) else d.target) == X]
+                muts = [c for c in walk_no_nested(gr) if isinstance(c, ast.Call) and isinstance(c.func, ast.Attribute) and unparse(c.func.value) == X and c.func.attr in ('update', 'add', 'append', 'extend', 'remove', 'discard', 'clear')]
+                inside = [d for d in defs if any(d is x for x in ast.walk(cat_loop)) and d in cat_loop.body]
+                from sa.slicer import uses as _uses
+                derived_ok = all(cat_list in _uses(d.value) for d in inside if d.value is not None)
+                ok = bool(inside) and len(inside) == len(defs) and not muts and derived_ok
+                why = 'it is defined %s the per-category loop%s' % ('outside' if len(inside) != len(defs) else 'inside', ' and accumulated with %s()' % muts[0].func.attr if muts else '')
+            rep.check('branches', 'the advertised-test `%s` consults the current category\'s advertised list only' % unparse(n), ok, n,
+                      '`%s` tests membership in `%s`, which is not the current category\'s list (%s): a name advertised in one category counts as advertised in another (e.g. cipher "none" makes MAC "none" look advertised)' % (unparse(n), X, why))
+            if ok:
+                table[unparse(n)] = 'adv' if isinstance(n.ops[0], ast.In) else '!adv'
+            else:
+                table[unparse(n)] = 'adv' if isinstance(n.ops[0], ast.In) else '!adv'
     atz = text_atomizer(table)
     atoms = ['aut', 'empty', 'matches', 'adv', 'faults', 'iskey', 'cert', 'sk', 'iskex', 'ext', 'strict', 'chgset']
     conds = {a: [(t, p) for t, p, k in path_condition(stores[a][0]) if k != 'for'] for a in ('add', 'del', 'chg')}
